@@ -31,6 +31,14 @@ func (h *History) Load(filename string) {
 	for {
 		if line, err = r.ReadLine(); err != nil {
 			if errors.Is(err, io.EOF) {
+				if 0 < len(line) {
+					// The file ends in a fragment of a write that was cut
+					// short. It is not an entry. Remove it so that the next
+					// entry added starts on a line of its own.
+					if fi, serr := f.Stat(); serr == nil {
+						_ = os.Truncate(filename, fi.Size()-int64(len(line)))
+					}
+				}
 				break
 			}
 			panic(err)
